@@ -42,6 +42,9 @@ var (
 	c01TimeRx = regexp.MustCompile(`^([0-9]{4})-([0-9]{2})-([0-9]{2})T([0-9]{2}):([0-9]{2}):([0-9]{2})(\.[0-9]+)?(Z|[+-][0-9]{2}:[0-9]{2})$`)
 	c01MinI64 = new(big.Int).Lsh(big.NewInt(-1), 63)
 	c01MaxI64 = new(big.Int).Sub(new(big.Int).Lsh(big.NewInt(1), 63), big.NewInt(1))
+	// the last second whose instant a time.Time can hold: it counts from year 1 (62135596800 s before 1970) in an int64; a
+	// NumericDate beyond it is not an instant the verifier's guards can judge (finding F-C01a, fixed: such a claim is refused)
+	c01MaxTime = new(big.Int).Sub(c01MaxI64, big.NewInt(62135596800))
 )
 
 // daysFromCivil: days since 1970-01-01 of a proleptic Gregorian date (Howard Hinnant's algorithm)
@@ -144,7 +147,7 @@ func c01ReadTime(raw, kind string) c01Spelled {
 			s.frac = !q.IsInt()
 			trunc := new(big.Int).Quo(q.Num(), q.Denom()) // toward zero
 			s.floor = new(big.Int).Div(q.Num(), q.Denom()) // Euclidean = floor for a positive denominator
-			if trunc.Cmp(c01MinI64) >= 0 && trunc.Cmp(c01MaxI64) <= 0 {
+			if trunc.Cmp(c01MinI64) >= 0 && trunc.Cmp(c01MaxTime) <= 0 {
 				s.ok, s.val = true, trunc.Int64()
 			}
 		}
@@ -255,7 +258,14 @@ func c01RFC3339(v, off int64, frac string) string {
 // negative, zero in many forms, null, far future, beyond int64, forms the library documents as refused.
 func c01SpellOther(r *hx.Rand, v int64) (string, string) {
 	d := strconv.FormatInt(v, 10)
-	switch r.Intn(12) {
+	switch r.Intn(13) {
+	case 11:
+		// both edges of the range of instants (every value exactly representable as a double): the last double below the
+		// zone time.Unix wraps around, the first one inside it, values deep inside it, -2^63 and the first double below it
+		if r.Chance(50) {
+			return hx.Pick(r, "9223371974719178752", "9223371974719177728", "9.223371974719178752e18", "9223371974719178752.0", "-9223372036854775808", "-9.223372036854775808e18"), "time-edge-in"
+		}
+		return hx.Pick(r, "9223371974719179776", "9.223371974719179776e18", "9223371974719180800", "9223372036854774784", "9223372036800000000", "-9223372036854777856"), "time-edge-out"
 	case 0:
 		return "-" + d, "negative"
 	case 1:
